@@ -177,6 +177,10 @@ func (w *c11World) ics(r *Rec, f []string) string {
 		}
 	}
 	r.Count("ics." + out)
+	if w.offByKey && p.found && !w.govOff[p.addr] && out == "kept" {
+		r.Count("convert.refused.module-disabled-by-key")
+		r.Count("convert.refused.module-disabled-by-key.ics")
+	}
 	if p.found && w.govOff[p.addr] && out == "kept" && w.offRestarts[p.addr] > 0 {
 		r.Count("convert.after-restart.refused-disabled")
 		r.Count("convert.after-restart.refused-disabled.ics")
